@@ -22,6 +22,7 @@
 use std::sync::OnceLock;
 use vcore::{Cfg, Check, Cx, Finding, Meta, Tier, Value, Violation, json};
 
+mod impls;
 mod macros;
 mod model;
 mod probe;
@@ -483,7 +484,7 @@ impl Check for C18 {
         "C18"
     }
     fn units(&self, cfg: &Cfg) -> usize {
-        plan(cfg.tier).units.len() + 1
+        plan(cfg.tier).units.len() + 1 + impls::n_units()
     }
     fn run_unit(&self, unit: usize, cx: &mut Cx) {
         if !cx.case(vcore::SUB_SETUP) {
@@ -501,7 +502,9 @@ impl Check for C18 {
             return;
         }
         let pl = plan(cx.cfg.tier);
-        if unit == pl.macro_unit {
+        if unit > pl.macro_unit {
+            impls::run(unit - pl.macro_unit - 1, cx);
+        } else if unit == pl.macro_unit {
             macros::run(cx);
         } else {
             self.run_skeletons(unit, cx);
@@ -511,6 +514,9 @@ impl Check for C18 {
         let pl = plan(cfg.tier);
         if sub == vcore::SUB_SETUP {
             return json!({"library": "let mut rt = Runtime::new();\n", "uses": [], "model_defects": []});
+        }
+        if unit > pl.macro_unit {
+            return impls::describe(unit - pl.macro_unit - 1, sub);
         }
         if unit == pl.macro_unit {
             return macros::describe(sub);
